@@ -10,6 +10,7 @@ import (
 
 func init() {
 	vRegister("H06_large", H06_large)
+	vRegister("H01_large", H01_large)
 }
 
 // vLargeBatch: n documents; every document has the term in field "body" with frequency 1 + d%3, field length
@@ -98,4 +99,79 @@ func H06_large() {
 		want = 7
 	}
 	vAssert(err == nil && plc.Count() == uint64(want), "cold-count")
+}
+
+// H01_large: builds above the 1024 boundary (the cardinality-dependent chunk sizes of modes 1025 / 1026):
+// single-valued documents, and a multi-valued field whose two values repeat the same term (the builder merges
+// them into one posting per document - the number of field instances is twice the cardinality). Every
+// posting read back (full iteration and Advance probes, in memory or re-opened) has the frequency, norm and
+// locations of its document. Concrete data; shape, chunk mode, probe and re-opening are symbolic choices.
+func H01_large() {
+	shape := vChoice("shape", 3)
+	mode := []uint32{1026, 1025, 300}[vChoice("mode", 3)]
+	probeChoice := vChoice("probe", 3)
+	reopen := vBool("reopen")
+	n := []int{vParam("nLarge", 1100), 600, 1030}[shape]
+	docs := make([]index.Document, 0, n)
+	for d := 0; d < n; d++ {
+		id := fmt.Sprint("d", d)
+		f := vTextField("body", 2+d%5, []vTerm{{term: "hot", freq: 1 + d%3, locs: []vLoc{{pos: d, start: d, end: d + 1}}}},
+			index.IndexField|index.IncludeTermVectors, nil, nil, 't')
+		fields := []index.Field{vIDField(id), f}
+		if shape == 1 {
+			fields = append(fields, vTextField("body", 1, []vTerm{{term: "hot", freq: 1, locs: []vLoc{{pos: d + 1000, start: d, end: d + 1}}}},
+				index.IndexField|index.IncludeTermVectors, nil, nil, 't'))
+		}
+		docs = append(docs, &vDoc{id: id, fields: fields})
+	}
+	var z ZapPlugin
+	segI, _, err := z.newWithChunkMode(docs, mode)
+	vAssert(err == nil, "build")
+	var seg segment.Segment = segI
+	if reopen {
+		vAssert(segI.(*SegmentBase).Persist(vP("large1.zap")) == nil, "persist")
+		seg, err = z.Open(vP("large1.zap"))
+		vAssert(err == nil, "open")
+	}
+	wantFreq := func(d int) uint64 {
+		if shape == 1 {
+			return uint64(2 + d%3)
+		}
+		return uint64(1 + d%3)
+	}
+	wantNorm := func(d int) uint64 {
+		if shape == 1 {
+			return uint64(3 + d%5)
+		}
+		return uint64(2 + d%5)
+	}
+	dict, err := seg.Dictionary("body")
+	vAssert(err == nil, "dict")
+	pl, err := dict.PostingsList([]byte("hot"), nil, nil)
+	vAssert(err == nil && pl.Count() == uint64(n), "count")
+	it := pl.Iterator(true, true, true, nil)
+	for d := 0; d < n; d++ {
+		p, err := it.Next()
+		vAssert(err == nil && p != nil, "hit")
+		vAssert(p.Number() == uint64(d), "hit-doc")
+		vAssert(p.Frequency() == wantFreq(d), "hit-freq")
+		vAssert(p.(*Posting).NormUint64() == wantNorm(d), "hit-norm")
+		locs := p.Locations()
+		if shape == 1 {
+			vAssert(len(locs) == 2 && locs[0].Pos() == uint64(d) && locs[1].Pos() == uint64(d+1000), "hit-locs")
+		} else {
+			vAssert(len(locs) == 1 && locs[0].Pos() == uint64(d) && locs[0].Field() == "body", "hit-loc")
+		}
+	}
+	p, err := it.Next()
+	vAssert(err == nil && p == nil, "end")
+	d := []int{n / 2, n - 1, n/2 - 1}[probeChoice]
+	it2 := pl.Iterator(true, true, true, nil)
+	p, err = it2.Advance(uint64(d))
+	vAssert(err == nil && p != nil, "adv-hit")
+	vAssert(p.Number() == uint64(d) && p.Frequency() == wantFreq(d) && p.(*Posting).NormUint64() == wantNorm(d), "adv-details")
+	if d+1 < n {
+		p, err = it2.Next()
+		vAssert(err == nil && p != nil && p.Number() == uint64(d+1) && p.Frequency() == wantFreq(d+1), "adv-next")
+	}
 }
